@@ -166,4 +166,88 @@ def C05(tier):
     return jobs, floors, rule
 
 
-PROPS = {"C01": C01, "C02": C02, "C03": C03, "C04": C04, "C05": C05}
+def hj(harness, trials, first=0, flavor="hooks", ncpu=None, scale=100, mode=None, perturb="auto", timeout=300, extra=()):
+    args = ["--trials=%d" % trials, "--first=%d" % first, "--scale=%d" % scale, "--perturb=%s" % perturb] + list(extra)
+    if mode:
+        args.append("--mode=%s" % mode)
+    return Job(flavor, harness, args, ncpu=ncpu, timeout=timeout, tag="%s:%s:%s:%s:%d" % (harness, mode or "-", flavor, ncpu or 16, first))
+
+
+def C07(tier):
+    m = 1 if tier == "quick" else 12
+    jobs = []
+    for i in range(4):
+        jobs.append(hj("h_group", 12 * m, first=i * 12 * m, mode="tokens"))
+    for i in range(3):
+        jobs.append(hj("h_group", 12 * m, first=1000 + i * 12 * m, mode="mixed"))
+    jobs += [hj("h_group", 6 * m, first=2000, ncpu=1, scale=40, mode="tokens"), hj("h_group", 8 * m, first=2100, ncpu=2, scale=60, mode="mixed"),
+             hj("h_group", 8 * m, first=2200, ncpu=4, mode="tokens")]
+    jobs += [hj("h_group", 4 * m, first=3000, flavor="asan", scale=40, timeout=600)]
+    jobs += [Job("tsan", "h_handoff", ["--trials=%d" % (4 * m), "--first=300", "--scale=40"], timeout=900, tag="h_handoff:tsan")]
+    if tier == "thorough":
+        for t in jobs:
+            t.timeout = 1800
+    floors = {
+        "tokens": 200000 * (1 if tier == "quick" else 8),
+        "waits_zero_entered_at_call": 20000,   # successful waits that had to wait for the count to reach zero
+        "waits_timed_out": 2000,
+        "notify_order_checked": 30000,
+        "site:dispatch_group_leave:3": 10000,   # zero transitions with waiters/notifications
+        "site:_dispatch_group_wait_slow:0": 10000,
+    }
+    rule = ("one case = one trial: 2-8 threads doing enter/leave, group_async, notify and wait (forever / timed on three clocks / "
+            "zero timeout) on ONE group reused through thousands of zero transitions, under a perturbation profile at the library's "
+            "atomics; oracle: interval-bound count timeline for every successful wait, deadline lower bound for every timeout, notify "
+            "exactly-once and not-before-leave ordering, nothing left behind at quiescence; non-trivial = some successful wait began "
+            "while tokens were outstanding and notifications were registered")
+    return jobs, floors, rule
+
+
+def C08(tier):
+    m = 1 if tier == "quick" else 12
+    jobs = []
+    for i in range(6):
+        jobs.append(hj("h_sema", 12 * m, first=i * 12 * m))
+    jobs += [hj("h_sema", 6 * m, first=2000, ncpu=1, scale=40), hj("h_sema", 8 * m, first=2100, ncpu=2, scale=60), hj("h_sema", 8 * m, first=2200, ncpu=4)]
+    jobs += [hj("h_sema", 4 * m, first=3000, flavor="asan", scale=40, timeout=600)]
+    if tier == "thorough":
+        for t in jobs:
+            t.timeout = 1800
+    floors = {
+        "waits": 300000 * (1 if tier == "quick" else 8),
+        "timeouts": 20000,
+        "success_after_deadline": 50,   # timed waits satisfied after their deadline: the timeout raced a signal
+        "topup_signals": 1,
+        "site:_dispatch_semaphore_wait_slow:3": 20000,
+    }
+    rule = ("one case = one trial: a semaphore of value v in {0,1,3}, 1-8 waiter threads (forever / timed 20-500 us on uptime and wall "
+            "clocks / poll) against 1-4 signaller threads paced at the same scale, under a perturbation profile; oracle: permit "
+            "conservation at every successful return stamp, deadline lower bound for every timeout, end-state drain count == "
+            "v + signals - successes, forever-waiters released; non-trivial = the trial had both time-outs and successes")
+    return jobs, floors, rule
+
+
+def C09(tier):
+    m = 1 if tier == "quick" else 12
+    jobs = []
+    for i in range(6):
+        jobs.append(hj("h_once", 10 * m, first=i * 10 * m))
+    jobs += [hj("h_once", 6 * m, first=2000, ncpu=1, scale=30), hj("h_once", 8 * m, first=2100, ncpu=2, scale=60), hj("h_once", 8 * m, first=2200, ncpu=4)]
+    jobs += [hj("h_once", 6 * m, first=3000, flavor="tsan", scale=40, timeout=900)]
+    if tier == "thorough":
+        for t in jobs:
+            t.timeout = 1800
+    floors = {
+        "predicates": 50000 * (1 if tier == "quick" else 8),
+        "callers_that_waited_for_initialiser": 10000,
+        "site:_dispatch_once_wait:3": 1000,
+    }
+    rule = ("one case = one trial: an array of 300-3000 zeroed predicates, 2-16 callers released together on each predicate through "
+            "dispatch_once (block), dispatch_once_f (inline fast path) and the out-of-line function, initialiser bodies of 0-200 us, "
+            "under a perturbation profile; oracle: initialiser count == 1 per predicate, end(initialiser) < return stamp of every "
+            "caller, the initialiser's plain record visible to every caller (also under TSan), later calls do not run it; non-trivial "
+            "= callers arrived while the initialiser was running")
+    return jobs, floors, rule
+
+
+PROPS = {"C01": C01, "C02": C02, "C03": C03, "C04": C04, "C05": C05, "C07": C07, "C08": C08, "C09": C09}
